@@ -6,7 +6,7 @@
    thisRow[2048*3]).  All theorems quantify over EVERY token stream [ts] (valid or not) and every
    well-formed client state. *)
 From LV Require Import Dec.CliBase Dec.CliFbProofs Dec.CliDec Dec.CliDecZ Dec.CliMsg Dec.CliInit Dec.RefEnc
-     Dec.CliSound Dec.CliSafe Dec.CliOobWitness.
+     Dec.CliSound Dec.CliSafe Dec.CliSafeFix Dec.CliOobWitness.
 Local Open Scope Z_scope.
 
 (* ---- progress: a step that returns TRUE consumed at least one token and leaves a consistent state;
@@ -65,6 +65,50 @@ Theorem C08_no_oob_ultra : forall x y w h, 0 <= x -> 0 <= y -> 0 <= w -> 0 <= h 
 Proof. exact safe_dec_ultra. Qed.
 Theorem C08_no_oob_cursor : forall xh yh w h enc, safe (dec_cursor xh yh w h enc).
 Proof. exact safe_dec_cursor. Qed.
+
+(* ---- the REPAIRED control flow (the mirror's baseline [init_state]: fix bits 0..6 = library commits
+        dd06ff7, 0870444, 01fc326, 6de7bdd, d9a5962, 112b5b7, a7a3a60).  With the UltraZip bound checks (bit 0)
+        and the three Tight checks (bits 1..3) in place, UltraZip and Tight rectangles can no longer leave an
+        object either, whatever the server sends: an out-of-bounds access of the repaired mirror can only
+        originate in a TRLE / ZRLE rectangle (where C08-F27 below is still open). *)
+Definition fixes_0_3 (s : cst) : Prop := fixed s 0 = true /\ fixed s 1 = true /\ fixed s 2 = true /\ fixed s 3 = true.
+
+Theorem C08_no_oob_write : forall s ts c,
+  st_ok s -> fixes_0_3 s -> handle_msg s ts = Oob c ->
+  exists s' x y w h enc ts', st_ok s' /\ fixes_0_3 s' /\ 0 <= x /\ 0 <= y /\ 0 <= w /\ 0 <= h /\
+    In enc [cE_TRLE; cE_ZRLE; cE_ZYWRLE] /\ rect_body x y w h enc s' ts' = Oob c.
+Proof. exact no_oob_fixed. Qed.
+
+Theorem C08_no_oob_rect_fixed : forall x y w h enc,
+  0 <= x -> 0 <= y -> 0 <= w -> 0 <= h -> ~ In enc [cE_TRLE; cE_ZRLE; cE_ZYWRLE] ->
+  forall s ts, st_ok s -> fixes_0_3 s -> match rect_body x y w h enc s ts with Oob _ => False | _ => True end.
+Proof.
+  intros x y w h enc Hx Hy Hw Hh Hn s ts Hs Hf.
+  pose proof (rect_body_safe_fixed x y w h enc Hx Hy Hw Hh Hn s ts Hs Hf) as H. destruct (rect_body x y w h enc s ts); auto.
+Qed.
+
+Theorem C08_no_oob_ultrazip_fixed : forall rx ry rw rh s ts,
+  st_ok s -> fixed s 0 = true -> match dec_ultrazip rx ry rw rh s ts with Oob _ => False | _ => True end.
+Proof.
+  intros rx ry rw rh s ts Hs Hf. pose proof (safe_dec_ultrazip rx ry rw rh s ts Hs Hf) as H.
+  destruct (dec_ultrazip rx ry rw rh s ts); auto.
+Qed.
+
+Theorem C08_no_oob_tight_fixed : forall rx ry rw rh s ts,
+  0 <= rx -> 0 <= ry -> 0 <= rw -> 0 <= rh -> st_ok s ->
+  fixed s 1 = true -> fixed s 2 = true -> fixed s 3 = true -> rx + rw <= c_w s -> ry + rh <= c_h s ->
+  match dec_tight rx ry rw rh s ts with Oob _ => False | _ => True end.
+Proof.
+  intros rx ry rw rh s ts Hx Hy Hw Hh Hs F1 F2 F3 HW HH.
+  pose proof (safe_dec_tight rx ry rw rh Hx Hy Hw Hh s ts Hs (conj F1 (conj F2 (conj F3 (conj HW HH))))) as H.
+  destruct (dec_tight rx ry rw rh s ts); auto.
+Qed.
+
+(* the baseline state of the mirror satisfies the hypotheses *)
+Example C08_no_oob_fixed_nonvacuous : st_ok (init_state f888 255 16 16) /\ fixes_0_3 (init_state f888 255 16 16).
+Proof.
+  split; [split; [apply init_state_wf; lia|unfold bypp_pos; cbn; lia]|]. repeat split; reflexivity.
+Qed.
 
 (* ---- refutations for the control flow BEFORE the fix commits (fix mask 0, [old_state]): server streams on which
         that mirror leaves an object; each was reproduced on the real library under ASan
